@@ -1122,11 +1122,108 @@ def c16():
                       "EVERY page offset with the remaining count) compared by TLC with the independent footer decode and page walk; non-trivial = more than "
                       "one page per chunk or more than one row group")
     ck.cov["exhaustive"] = False
+    fdir = os.path.join(__import__("vlib").WORK, "c16files")
+    os.makedirs(fdir, exist_ok=True)
+    cli_progs = [p for p in ok if p.key.startswith("fixed:") or p.key.startswith("hist:")]
+    for i, p in enumerate(cli_progs):
+        for j, c in enumerate(p.cases[:4]):
+            c["keepfile"] = os.path.join(fdir, "f%d_%d.parquet" % (i, j))
     run_programs(ok, "c16")
+    for p in cli_progs:
+        add_cli_events(ck, p)
     ck.sample({"program": ok[0].key, "calls": ["ReadMetaData", "PageHeaders", "PageHeadersAtOffset(chunk offset, num_values)", "PageHeadersAtOffset(page offset, remaining)"]})
     judge_programs(ck, ok, ["C16", "HARNESS"], "c16", describe=history_key_cfg)
     ck.assumptions += ["harness/pq footer decode and sequential page walk are the independent reference"]
     ck.finish()
+
+
+ENUMS = {"type": {"BOOLEAN": 0, "INT32": 1, "INT64": 2, "INT96": 3, "FLOAT": 4, "DOUBLE": 5, "BYTE_ARRAY": 6, "FIXED_LEN_BYTE_ARRAY": 7},
+         "rep": {"REQUIRED": 0, "OPTIONAL": 1, "REPEATED": 2},
+         "ctype": {"UTF8": 0, "MAP": 1, "MAP_KEY_VALUE": 2, "LIST": 3, "ENUM": 4, "DECIMAL": 5, "DATE": 6, "TIME_MILLIS": 7, "TIME_MICROS": 8,
+                   "TIMESTAMP_MILLIS": 9, "TIMESTAMP_MICROS": 10, "UINT_8": 11, "UINT_16": 12, "UINT_32": 13, "UINT_64": 14, "INT_8": 15, "INT_16": 16,
+                   "INT_32": 17, "INT_64": 18, "JSON": 19, "BSON": 20, "INTERVAL": 21},
+         "codec": {"UNCOMPRESSED": 0, "SNAPPY": 1, "GZIP": 2, "LZO": 3, "BROTLI": 4, "LZ4": 5, "ZSTD": 6, "LZ4_RAW": 7},
+         "enc": {"PLAIN": 0, "PLAIN_DICTIONARY": 2, "RLE": 3, "BIT_PACKED": 4, "DELTA_BINARY_PACKED": 5, "DELTA_LENGTH_BYTE_ARRAY": 6, "DELTA_BYTE_ARRAY": 7,
+                 "RLE_DICTIONARY": 8, "BYTE_STREAM_SPLIT": 9},
+         "ptype": {"DATA_PAGE": 0, "INDEX_PAGE": 1, "DICTIONARY_PAGE": 2, "DATA_PAGE_V2": 3}}
+
+
+def en(kind, v, default=-1):
+    if v is None:
+        return default
+    if isinstance(v, int):
+        return v
+    return ENUMS[kind].get(v, -99)
+
+
+def cli_meta(m):
+    """the CLI's JSON FileMetaData in the shape of the driver's metaObsInd"""
+    return {"version": m.get("version", -1), "numrows": m.get("num_rows", -1),
+            "schema": [{"name": e.get("name", ""), "type": en("type", e.get("type")), "ctype": en("ctype", e.get("converted_type")),
+                        "rep": en("rep", e.get("repetition_type")), "nch": e.get("num_children", -1)} for e in m.get("schema") or []],
+            "rgs": [{"numrows": g.get("num_rows", -1), "tbs": g.get("total_byte_size", -1),
+                     "cols": [{"fo": c.get("file_offset", -1), "path": ".".join((c.get("meta_data") or {}).get("path_in_schema") or []),
+                               "type": en("type", (c.get("meta_data") or {}).get("type")), "codec": en("codec", (c.get("meta_data") or {}).get("codec")),
+                               "nvals": (c.get("meta_data") or {}).get("num_values", -1), "tu": (c.get("meta_data") or {}).get("total_uncompressed_size", -1),
+                               "tc": (c.get("meta_data") or {}).get("total_compressed_size", -1), "dpo": (c.get("meta_data") or {}).get("data_page_offset", -1)}
+                              for c in g.get("columns") or []]} for g in m.get("row_groups") or []]}
+
+
+def cli_hdr(h):
+    import base64
+    d = h.get("data_page_header")
+    e = {"type": en("ptype", h.get("type")), "ulen": h.get("uncompressed_page_size", -1), "clen": h.get("compressed_page_size", -1), "nvals": -1, "enc": -1,
+         "denc": -1, "renc": -1, "hasstats": False, "nullcount": -1, "min": "", "max": "", "hasmin": False, "hasmax": False}
+    if d:
+        e.update(nvals=d.get("num_values", -1), enc=en("enc", d.get("encoding")), denc=en("enc", d.get("definition_level_encoding")),
+                 renc=en("enc", d.get("repetition_level_encoding")))
+        st = d.get("statistics")
+        if st is not None:
+            e["hasstats"] = True
+            if "null_count" in st:
+                e["nullcount"] = st["null_count"]
+            for k, hk, jk in (("min", "hasmin", "min_value"), ("max", "hasmax", "max_value")):
+                if st.get(jk):
+                    e[hk], e[k] = True, base64.b64decode(st[jk]).hex()
+    return e
+
+
+def add_cli_events(ck, p):
+    """runs `parquetgen -parquet f -metadata` and `-pageheaders` on the files a program kept and adds a Cli event after each Intro event"""
+    import subprocess
+    from vlib import farm
+    gen = farm().gen
+    out, ci = [], -1
+    for e in p.events:
+        out.append(e)
+        if e.get("ev") == "Reset":
+            ci += 1
+        if e.get("ev") == "Intro" and 0 <= ci < len(p.cases) and p.cases[ci].get("keepfile") and os.path.exists(p.cases[ci]["keepfile"]):
+            f = p.cases[ci]["keepfile"]
+            ev = {"ev": "Cli", "err": "", "meta": {}, "meta2": {}, "hdrs": [], "imeta": e["imeta"], "ipages": []}
+            # json's omitempty drops zero-length min/max: compare those as absent on both sides
+            for h in e["ipages"]:
+                h = dict(h)
+                for k, hk in (("min", "hasmin"), ("max", "hasmax")):
+                    if h[k] == "":
+                        h[hk] = False
+                # an all-absent Statistics struct is printed as {} by the tool: hasstats stays comparable
+                ev["ipages"].append(h)
+            try:
+                r1 = subprocess.run([gen, "-parquet", f, "-metadata"], capture_output=True, text=True, timeout=60)
+                r2 = subprocess.run([gen, "-parquet", f, "-pageheaders"], capture_output=True, text=True, timeout=60)
+                if r1.returncode != 0 or r2.returncode != 0:
+                    ev["err"] = (r1.stderr + r2.stderr)[-300:] or "non-zero exit"
+                else:
+                    ev["meta"] = cli_meta(json.loads(r1.stdout))
+                    j2 = json.loads(r2.stdout)
+                    ev["meta2"] = cli_meta(j2.get("file_metadata") or {})
+                    ev["hdrs"] = [cli_hdr(h) for h in j2.get("page_headers") or []]
+            except Exception as ex:  # malformed output is the tool's problem, reported through the judge
+                ev["err"] = "tool output not usable: %s" % ex
+            out.append(ev)
+            ck.add("cli_runs")
+    p.events = out
 
 
 CHECKS["C16"] = c16
